@@ -89,6 +89,11 @@ pub trait Variables<T: FloatT> {
     /// Rescale variables, e.g. to renormalize iterates
     /// in a homogeneous embedding
     fn rescale(&mut self);
+
+    /// verification hook: observe the current iterate (no-op by default)
+    #[cfg(clarabel_verif)]
+    #[allow(clippy::too_many_arguments)]
+    fn verif_record(&self, _iter: u32, _α: T, _σ: T, _μ: T, _dual_scaling: bool, _phase: u8) {}
 }
 
 /// Residuals for a conic optimization problem.
